@@ -2,4 +2,4 @@ From Coq Require Import List Extraction ExtrOcamlBasic.
 From DDP Require Import Gen.OperatorEnum Lower.TcTable Lower.LowerTable Lower.Cells.
 Extraction Language OCaml.
 Extraction "c02_model.ml" all_unops all_binops all_terops all_castops all_tys all_fields
-  tc lower cell_ok verdict_of ctx_ok ctx_admits ir irty_eqb ir_well_typed code_verdict.
+  tc lower cell_ok verdict_of ctx_ok ctx_admits ir irty_eqb ir_well_typed code_verdict tc_stmt lower_stmt stmt_well_typed verdict_stmt.
